@@ -201,8 +201,10 @@ theorem resendRows_spec (o : Int) : ∀ (rows : AJournal) (gfb : Int) (c : AConn
       simpa [AConn.same] using this
 
 /-- the reply to `ResendRequest(b, 0)`, `1 ≤ b < o`: a chain `b … o` of gap fills and retransmissions -/
-theorem serve_spec (c : AConn) (b : Int) (hb1 : 1 ≤ b) (hbo : b < c.o) (hk : keysOK c.o c.out) :
+theorem serve_spec (c : AConn) (b : Int) (hb1 : 1 ≤ b) (hbo : b < c.o) (hk : keysOK c.o c.out)
+    (hmax : c.o ≤ sysMaxsize + 1) :
     chain b (c.serve b).2 c.o ∧ (∀ f ∈ (c.serve b).2, isData f) ∧ c.same (c.serve b).1 := by
+  have hm : min (sysMaxsize + 1) c.o = c.o := Int.min_eq_right hmax
   have hcond : (b < 1 || b ≥ c.o) = false := by simp; omega
   obtain ⟨hpw, hrng⟩ := hk
   have hspec := resendRows_spec c.o (c.out.filter fun r => b ≤ r.1 && r.1 ≤ sysMaxsize) b
@@ -213,7 +215,7 @@ theorem serve_spec (c : AConn) (b : Int) (hb1 : 1 ≤ b) (hbo : b < c.o) (hk : k
       exact ⟨hr.2.1, (hrng r hr.1).2⟩)
     (by omega) rfl (by simp)
   unfold AConn.serve
-  simp only [hcond, Bool.false_eq_true, if_false]
+  simp only [hcond, Bool.false_eq_true, if_false, hm]
   obtain ⟨h1, h2, h3, h4⟩ := hspec
   split
   · rename_i hlt
